@@ -483,4 +483,82 @@ theorem removeIllegal_eq (p : Pos) (k : Sq) (hv : ValidB p.b) (hk : KingAt p.b p
       rw [this]; rfl
     · rw [inCheckAfter_eq p hv m hp]
 
+/-! ## `isLegal`, branch by branch -/
+
+/-- what `isLegal` has to return for a pseudo-legal move -/
+def safeAfter (p : Pos) (m : Mv) : Bool := !Chess.inCheck (apply p m).b p.wtm
+
+/-- in check (moveGen.cpp:625-638) -/
+theorem isLegal_inCheck (p : Pos) (k : Sq) (hv : ValidB p.b) (hk : KingAt p.b p.wtm k) (m : Mv) (hp : pseudo p m = true)
+    (hchk : Chess.inCheck p.b p.wtm = true) : isLegal p k m true = safeAfter p m := by
+  unfold isLegal safeAfter
+  simp only [if_true]
+  split
+  · rename_i hc
+    simp only [Bool.and_eq_true, bne_iff_ne, ne_eq, and_sqBit_eq_zero, Bool.not_eq_true', tst_and, tst_pcBB,
+      Bool.and_eq_false_iff, knightAttacks, tst_bbSq, beq_eq_false_iff_ne] at hc
+    obtain ⟨⟨hfk, hep⟩, ⟨hr, hb⟩, hkn⟩ := hc
+    obtain ⟨hs, hk'⟩ := simple_of_pseudo p m hp k hk hfk hep
+    have hv' := validB_apply p hv m hp
+    rw [inCheck_of_kingAt _ hv' _ k hk']
+    rw [inCheck_of_kingAt _ hv _ k hk] at hchk
+    have := hs.still_attacked hv hv' k hchk (by rintro (h | h) <;> simp_all)
+      (fun h => by rcases hkn with h' | h' <;> simp_all)
+    rw [this]; rfl
+  · rw [inCheckAfter_eq p hv m hp]
+
+/-- not in check, a piece the king does not see along a ray moves (moveGen.cpp:644-650) -/
+theorem isLegal_notVisible (p : Pos) (k : Sq) (hv : ValidB p.b) (hk : KingAt p.b p.wtm k) (m : Mv) (hp : pseudo p m = true)
+    (hchk : Chess.inCheck p.b p.wtm = false) (hfk : m.f ≠ k) (hep : p.ep ≠ some m.t) (hnv : ¬ Visible (occBB p.b) k m.f) :
+    safeAfter p m = true := by
+  unfold safeAfter
+  obtain ⟨hs, hk'⟩ := simple_of_pseudo p m hp k hk hfk hep
+  have hv' := validB_apply p hv m hp
+  rw [inCheck_of_kingAt _ hv' _ k hk']
+  rw [inCheck_of_kingAt _ hv _ k hk] at hchk
+  rw [hs.not_attacked_after hv hv' k hchk hnv]; rfl
+
+/-- not in check, an ordinary king move (moveGen.cpp:640-642): the destination is tested with the king lifted off -/
+theorem isLegal_kingStep (p : Pos) (k : Sq) (hv : ValidB p.b) (hk : KingAt p.b p.wtm k) (m : Mv) (hp : pseudo p m = true)
+    (hfk : m.f = k) (hnc : m.t.val ≠ m.f.val + 2 ∧ m.t.val + 2 ≠ m.f.val) :
+    (!sqAttacked p.b p.wtm m.t (occBB p.b &&& ~~~sqBit m.f)) = safeAfter p m := by
+  unfold safeAfter
+  subst hfk
+  have hkind : kind p.b[m.f] = 1 := by rw [hk.1]; exact kind_king _
+  have hnep : PosImpl.isEpS p m = false := by
+    unfold PosImpl.isEpS; rw [getP_sq, hkind]; rfl
+  have hb := apply_b_simple p m hnep (fun h => by omega)
+  have hft := pseudo_ne p m hp
+  have hpr : m.promo = 0 := PosImpl.pseudo_other p m hp (by rw [getP_sq, hkind]; decide)
+  have hbf : p.b[m.f] = (if p.wtm then WKING else BKING) := hk.1
+  have hk' : KingAt (apply p m).b p.wtm m.t := by
+    constructor
+    · rw [hb m.t, if_pos rfl, hpr]; simpa using hbf
+    · intro s hs
+      rw [hb s] at hs
+      by_cases e1 : s = m.t
+      · exact e1
+      · rw [if_neg e1] at hs
+        by_cases e2 : s = m.f
+        · rw [if_pos e2] at hs
+          cases hw : p.wtm <;> rw [hw] at hs <;> cases hs
+        · rw [if_neg e2] at hs
+          exact absurd (hk.2 s hs) e2
+  have hv' := validB_apply p hv m hp
+  rw [inCheck_of_kingAt _ hv' _ m.t hk', sqAttacked_spec _ hv']
+  congr 1
+  apply sqAttacked_eq
+  · intro q hq
+    rw [tst_and, tst_not, tst_sqBit, tst_occBB _ hv, hb q, if_neg hq]
+    by_cases e2 : q = m.f
+    · simp [e2]
+    · simp [e2]
+  · intro s hs ho
+    rw [hb s, if_neg hs]
+    by_cases e2 : s = m.f
+    · exfalso
+      rw [hb s, if_neg hs, if_pos e2, own_zero, e2, own_excl _ _ (pseudo_own_f p m hp)] at ho
+      rcases ho with h | h <;> cases h
+    · rw [if_neg e2]
+
 end Chess.Texel
